@@ -116,6 +116,25 @@ func c09Case(k *codecClass, id, variant int, rng *rand.Rand, thorough bool) (*lg
 		}
 	}
 	m := labelMap(k.LClass, k.Cls.K+60, rng)
+	if k.LClass == "top" && len(k.Pal) > 0 {
+		// place 2^64-1 where it matters structurally: as the label of the solid background
+		// sub-blocks (first voxel of many sub-blocks, whole sub-blocks, and the whole block when
+		// the class is solid), or as the first label of the rich sub-block's palette
+		n := len(m) - 1
+		var a int
+		switch variant % 3 {
+		case 0:
+			a = k.Pal[len(k.Pal)-1][0]
+		case 1:
+			a = k.Pal[0][0]
+		default:
+			a = n
+		}
+		if a != n && a > 0 {
+			m[n] = uint64(1)<<62 + 12345
+			m[a] = ^uint64(0)
+		}
+	}
 	c := &lg.Case{ID: id, Geom: g, Lay: k.Lay, Seed: rng.Int63(), Codec: true, Pair: variant%2 == 1}
 	c.AllPoints = thorough || g.NumVoxels() <= 32768
 	switch (variant + k.Cls.Ki) % 4 {
